@@ -119,23 +119,23 @@ theorem Cfg.t46_ptBody_K (c : Cfg) (k : List Frame) (r : Nat) (t : Task) (he : t
     · simp only [Cfg.pop_st]
       exact St.T46K.setValueOpt (St.T46K.setGen (St.T46K.refl _) _ _ (by rw [hgen]; rfl)) _ _
 
-theorem Cfg.t46_ptOwn_K (c : Cfg) (k : List Frame) (r : Nat) (t : Task) (he : t.e < c.st.evs.length) :
-    St.T46K c.st (c.ptOwn k r t).st := by
+theorem Cfg.t46_ptOwn_K (c : Cfg) (k : List Frame) (r : Nat) (t : Task) (he : t.e < c.st.evs.length)
+    (hg : c.st.t46_nc t.g) : St.T46K c.st (c.ptOwn k r t).st := by
   unfold Cfg.ptOwn
   split
   · simp only [Cfg.pop_st]; exact St.T46K.setValueOpt (St.T46K.refl _) _ _
-  · simp only [Cfg.pop_st]; exact St.t46_ownSub_K _ r t _ he
+  · simp only [Cfg.pop_st]; exact St.t46_ownSub_K _ r t _ he hg
   · exact Cfg.t46_contStop_K c k _ r t (St.T46K.refl _) he
   · exact Cfg.t46_contError_K c k _ r t false (St.T46K.refl _)
   · exact St.T46K.refl _
   · exact St.T46K.refl _
 
 theorem Cfg.t46_ptParent_K (c : Cfg) (k : List Frame) (r : Nat) (t : Task) (p : Nat) (v : Bool)
-    (he : t.e < c.st.evs.length) : St.T46K c.st (c.ptParent k r t p v).st := by
+    (he : t.e < c.st.evs.length) (hp : c.st.t46_nc p) : St.T46K c.st (c.ptParent k r t p v).st := by
   unfold Cfg.ptParent
   split
-  · simp only [Cfg.pop_st]; exact St.t46_parentSub_K _ r t p _ v he
-  · simp only [Cfg.pop_st]; exact St.t46_parentPlain_K _ r t p _ v he
+  · simp only [Cfg.pop_st]; exact St.t46_parentSub_K _ r t p _ v he hp
+  · simp only [Cfg.pop_st]; exact St.t46_parentPlain_K _ r t p _ v he hp
   · exact Cfg.t46_contStop_K c k _ r t (St.T46K.refl _) he
   · exact Cfg.t46_contError_K c k _ r t true (St.T46K.refl _)
   · exact St.T46K.refl _
@@ -148,9 +148,9 @@ theorem Cfg.t46_hApply_K (c : Cfg) (k : List Frame) (r e : Nat) (rest : List Nat
   split <;> exact St.T46K.geTasksCheck (St.t46_applyValue_K c.st r e v (fun _ _ => he)) r e
 
 theorem Cfg.t46_invoke_K (c : Cfg) (k : List Frame) (r h e : Nat)
-    (hd : ∀ w, (c.st.handler h).kind = .waitDone w → (c.st.wait w).taskEvent < c.st.evs.length ∧
+    (hd : ∀ w, (c.st.handler h).kind = .waitDone w → c.st.T46WaitOk (c.st.wait w) ∧
       (c.st.wait w).task < c.st.gens.length ∧ (c.st.gen (c.st.wait w).task).t46_carrier = true)
-    (ht : ∀ w, (c.st.handler h).kind = .waitTick w → (c.st.wait w).taskEvent < c.st.evs.length) :
+    (ht : ∀ w, (c.st.handler h).kind = .waitTick w → c.st.T46WaitOk (c.st.wait w)) :
     St.T46K c.st (c.invoke k r h e).st := by
   unfold Cfg.invoke
   dsimp only
@@ -168,10 +168,13 @@ theorem Cfg.t46_invoke_K (c : Cfg) (k : List Frame) (r h e : Nat)
   · rename_i w hk
     simp only [Cfg.popRet_st]
     obtain ⟨h1, h2, h3⟩ := hd w hk
-    exact hSK.trans (St.t46_onWaitDone_K S w e (by rw [hSw, hSe]; exact h1) (by rw [hSw, hSg, hSgen]; exact ⟨h2, h3⟩))
+    have hnc : ∀ p, c.st.t46_nc p → S.t46_nc p := fun p hp => by unfold St.t46_nc; rw [hSg, hSgen]; exact hp
+    exact hSK.trans (St.t46_onWaitDone_K S w e (by rw [hSw, hSe]; exact h1.1) (by rw [hSw, hSg, hSgen]; exact ⟨h2, h3⟩)
+      (by rw [hSw]; exact hnc _ h1.2))
   · rename_i w hk
     simp only [Cfg.popRet_st]
-    exact hSK.trans (St.t46_onWaitTick_K S w (by rw [hSw, hSe]; exact ht w hk))
+    have hnc : ∀ p, c.st.t46_nc p → S.t46_nc p := fun p hp => by unfold St.t46_nc; rw [hSg, hSgen]; exact hp
+    exact hSK.trans (St.t46_onWaitTick_K S w (by rw [hSw, hSe]; exact (ht w hk).1) (by rw [hSw]; exact hnc _ (ht w hk).2))
   · simp only [Cfg.popRet_st]; t46k
   · split <;> simp only [Cfg.popRet_st, Cfg.raise_st] <;> t46k
   · simp only [Cfg.popRet_st]; t46k
